@@ -565,11 +565,13 @@ func VfC04Honest() {
 	vfSTick, vfSChallenges = 0, nil
 	state.VfClock = vfSNow
 	u, s := "", ""
-	switch vf.Choose(3) {
+	switch vf.Choose(4) {
 	case 1:
 		u = "u1"
 	case 2:
 		u, s = "u1", "s3cret"
+	case 3:
+		s = "s3cret" // a secret for the unnamed (default) universe: the configuration parser accepts it
 	}
 	V, P := vfSNewRouter(vfSV, u, s), vfSNewRouter(vfSP, u, s)
 	V.cfg.Router.Lite, P.cfg.Router.Lite = vf.Bool(), vf.Bool()
